@@ -250,3 +250,82 @@ func vhV0KeepFull() bool {
 	zz.Assume(err == nil && len(c.OnKubernetesEvents) == 1)
 	return c.OnKubernetesEvents[0].Monitor.KeepFullObjectsInMemory
 }
+
+// VH_C09_pipeline: the same contract, but the stored results and the event come
+// from the real informer code: watch event -> handleWatchEvent -> KubeEvent /
+// cache -> ConvertKubeEventToBindingContext -> MapV1.  Object-valued jq results
+// only (the non-object shapes are the known finding checked above).
+func VH_C09_pipeline() {
+	shape := zz.Len("shape", 0, 2)
+	keepFull := zz.Bool("keep_full_objects")
+	sv := zz.OneOf("state", "x", "y")
+	mc := &kubeeventsmanager.MonitorConfig{JqFilter: vhC09Filter(shape), KeepFullObjectsInMemory: keepFull}
+	mc.Metadata.MonitorId = "mon"
+	mc.WithEventTypes(nil)
+	cfg := htypes.OnKubernetesEventConfig{Monitor: mc, KeepFullObjectsInMemory: keepFull}
+	cfg.BindingName = "kb"
+	link := &KubernetesBindingToMonitorLink{MonitorId: "mon", BindingConfig: cfg}
+	inf := kubeeventsmanager.VNewInformer(mc)
+
+	isEvent := zz.Bool("is_event")
+	var ev kemtypes.KubeEvent
+	nobj := 1
+	watch := kemtypes.WatchEventAdded
+	if isEvent {
+		watch = kemtypes.WatchEventType(zz.ConcretizeStr(zz.OneOf("watch", "Added", "Modified", "Deleted")))
+		if watch != kemtypes.WatchEventAdded {
+			// the object is known in an earlier state
+			inf.Watch(vhC09Object(shape, "p0", "w"), kemtypes.WatchEventAdded)
+			inf.Events = nil
+		}
+		inf.Watch(vhC09Object(shape, "p0", sv), watch)
+		zz.Assert(len(inf.Events) == 1, "watch_event_is_delivered")
+		if len(inf.Events) != 1 {
+			return
+		}
+		ev = inf.Events[0]
+	} else {
+		nobj = zz.Len("nobjects", 0, 2)
+		for i := 0; i < nobj; i++ {
+			inf.Watch(vhC09Object(shape, "p"+string(rune('0'+i)), sv), kemtypes.WatchEventAdded)
+		}
+		ev = kemtypes.KubeEvent{MonitorId: "mon", Type: kemtypes.TypeSynchronization, Objects: inf.Snapshot()}
+	}
+	contexts := ConvertKubeEventToBindingContext(ev, link)
+	zz.Assert(len(contexts) == 1, "one_context_per_event")
+	if len(contexts) != 1 {
+		return
+	}
+	list := bctx.ConvertBindingContextList("v1", contexts)
+	zz.Assert(len(list) == 1, "array_has_one_item_per_context")
+	m := list[0]
+	zz.Assert(m["binding"] == "kb", "item_carries_binding")
+	if !isEvent {
+		zz.Assert(m["type"] == kemtypes.TypeSynchronization, "synchronization_type")
+		if nobj == 0 {
+			l, ok := m["objects"].([]string)
+			zz.Assert(ok && len(l) == 0, "synchronization_objects_empty_array")
+		} else {
+			l, ok := m["objects"].([]kemtypes.ObjectAndFilterResult)
+			zz.Assert(ok && len(l) == nobj, "synchronization_has_all_objects")
+			for i := 0; ok && i < len(l); i++ {
+				om := l[i].Map()
+				zz.Assert(vhHas(om, "object") == keepFull, "full_object_omitted_iff_not_kept")
+				zz.Assert(vhHas(om, "filterResult") == (shape != 0), "filter_result_present_iff_jq_filter")
+				if shape != 0 {
+					zz.Assert(vhFilterResultOK(shape, om["filterResult"], sv), "filter_result_is_jq_result")
+				}
+			}
+		}
+	} else {
+		zz.Assert(m["type"] == kemtypes.TypeEvent, "event_type")
+		zz.Assert(m["watchEvent"] == string(watch), "event_has_watch_event")
+		zz.Assert(vhKeys(m, "binding", "type", "watchEvent", "object", "filterResult"), "event_fields")
+		zz.Assert(vhHas(m, "object") == keepFull, "full_object_omitted_iff_not_kept")
+		zz.Assert(vhHas(m, "filterResult") == (shape != 0), "filter_result_present_iff_jq_filter")
+		if shape != 0 {
+			zz.Assert(vhFilterResultOK(shape, m["filterResult"], sv), "filter_result_is_jq_result")
+		}
+	}
+	zz.Reach("end")
+}
